@@ -125,7 +125,9 @@ namespace MEDDLY {
                 const forest* fb, node_handle b)
         {
             MEDDLY_DCASSERT(OMEGA_INFINITY != b);
-            if (fa->isIdentityReduced()) return false;
+            // b is the constant 0 only if its forest cannot skip levels as
+            // identity patterns (there, b is infinite off the diagonal).
+            if (fb->isIdentityReduced()) return false;
             // a-0 is a; but infinity-b is infinity only where b is finite,
             // so an infinite a cannot short-circuit the check of b.
             return (OMEGA_NORMAL == b);
